@@ -2263,7 +2263,7 @@ async fn handle_packet(
                     // the incoming source) is a separate concern gated by
                     // `enable_latching` inside handle_stun_request — it is NOT the same
                     // as "should we even reply to this STUN message".
-                    handle_stun_request(&sender, &msg, addr, inner).await;
+                    handle_stun_request(&sender, &msg, packet, addr, inner).await;
                 } else if msg.class == StunClass::SuccessResponse {
                     let mut map = inner.pending_transactions.lock();
                     if let Some(tx) = map.remove(&msg.transaction_id) {
@@ -2372,12 +2372,45 @@ async fn handle_packet(
     }
 }
 
+/// RFC 8445 §7.3 / RFC 5389 §10.1.2: a connectivity check is genuine only if
+/// its USERNAME is `<our ufrag>:<peer ufrag>` and its MESSAGE-INTEGRITY is
+/// keyed with our ICE password. The peer's ufrag is compared only once it is
+/// known (checks may overtake the remote description).
+fn stun_request_authenticated(msg: &StunDecoded, raw: &[u8], inner: &IceTransportInner) -> bool {
+    let local = inner.local_parameters.lock().clone();
+    let Some((local_ufrag, remote_ufrag)) = msg.username.as_deref().and_then(|u| u.split_once(':'))
+    else {
+        return false;
+    };
+    if local_ufrag != local.username_fragment {
+        return false;
+    }
+    if let Some(remote) = inner.remote_parameters.lock().as_ref()
+        && remote_ufrag != remote.username_fragment
+    {
+        return false;
+    }
+    msg.verify_integrity(raw, local.password.as_bytes())
+}
+
 async fn handle_stun_request(
     sender: &IceSocketWrapper,
     msg: &StunDecoded,
+    raw: &[u8],
     addr: SocketAddr,
     inner: Arc<IceTransportInner>,
 ) {
+    // In WebRTC mode both sides hold ICE credentials: a request that does not
+    // prove knowledge of them must not be answered, teach us a peer-reflexive
+    // candidate, or nominate a pair. Plain RTP/SRTP peers have no credentials,
+    // so their probes stay unauthenticated.
+    if inner.config.transport_mode == crate::TransportMode::WebRtc
+        && !stun_request_authenticated(msg, raw, &inner)
+    {
+        debug!("Dropping unauthenticated STUN request from {}", addr);
+        return;
+    }
+
     let response = StunMessage::binding_success_response(msg.transaction_id, addr);
 
     #[cfg(any(test, feature = "simulator"))]
